@@ -90,6 +90,13 @@ TARGETS = [
     ("pams/events/fundamental_price_shock.py", "FundamentalPriceShock", "hooked_before_step_for_market"),
     ("pams/index_market.py", "IndexMarket", "compute_market_index"),
     ("pams/index_market.py", "IndexMarket", "compute_fundamental_index"),
+    ("pams/agents/base.py", "Agent", "setup"),
+    ("pams/agents/base.py", "Agent", "is_market_accessible"),
+    ("pams/agents/base.py", "Agent", "set_market_accessible"),
+    ("pams/agents/base.py", "Agent", "set_asset_volume"),
+    ("pams/agents/base.py", "Agent", "get_asset_volume"),
+    ("pams/agents/base.py", "Agent", "update_asset_volume"),
+    ("pams/agents/base.py", "Agent", "update_cash_amount"),
     ("pams/agents/arbitrage_agent.py", "ArbitrageAgent", "submit_orders"),
     ("pams/agents/arbitrage_agent.py", "ArbitrageAgent", "_submit_orders"),
     ("pams/agents/market_maker_agent.py", "MarketMakerAgent", "get_base_price"),
